@@ -50,7 +50,7 @@ def to_src(e):
     if t == "arr":
         return "[" + ", ".join(to_src(x) for x in e[1]) + "]"
     if t == "obj":
-        return "{" + ", ".join("%s%s %s" % (vlib.jsonnet_str(n), "::" if h else ":", to_src(x)) for n, h, x in e[1]) + "}"
+        return "{" + ", ".join("%s%s %s" % (vlib.jsonnet_str(n), "::" if h is True else (":::" if h == "force" else ":"), to_src(x)) for n, h, x in e[1]) + "}"
     if t == "func":
         ps = ", ".join(n if d is None else "%s=%s" % (n, to_src(d)) for n, d in e[2])
         return "(function(%s) %s)" % (ps, to_src(e[3]))
@@ -74,7 +74,7 @@ def to_spec(e):
     if t == "obj":
         out = ["{%d" % len(e[1])]
         for n, h, x in sorted(e[1], key=lambda f: f[0]):
-            out.append(("h" if h else "v") + vlib.hx(n))
+            out.append(("h" if h is True else "v") + vlib.hx(n))
             out += to_spec(x)
         return out
     if t == "func":
@@ -114,7 +114,7 @@ def py_eval(e, ext, penv, code, depth=0):
     if t == "arr":
         return [py_eval(x, ext, penv, code, depth + 1) for x in e[1]]
     if t == "obj":
-        return {n: py_eval(x, ext, penv, code, depth + 1) for n, h, x in sorted(e[1], key=lambda f: f[0]) if not h}
+        return {n: py_eval(x, ext, penv, code, depth + 1) for n, h, x in sorted(e[1], key=lambda f: f[0]) if h is not True}
     if t == "func":
         return PyFunc(e[1], e[2], e[3])
     if t == "ext":
@@ -727,6 +727,8 @@ VALUES = [
     ("object-arrays", ["obj", [["a", False, ["arr", [["atom", 3]]]], ["b", False, ["arr", []]],
                                ["c", False, ["arr", [S("x"), ["atom", 0]]]]]]),
     ("object-empty", ["obj", []]),
+    ("object-forced-visible", ["obj", [["a", False, S("x")], ["dbg", "force", S("shown")], ["hid", True, S("no")]]]),
+    ("object-forced-visible-json", ["obj", [["z", "force", ["arr", [["atom", 3]]]], ["a", False, ["obj", [["k", "force", ["atom", 4]]]]]]]),
     ("number", ["atom", 4]),
     ("null", ["atom", 0]),
     ("func-defaults", ["func", 1, [["p", S("dflt")], ["q", ["atom", 3]]],
@@ -830,10 +832,12 @@ def gen_var_case(rng):
             if k == "ts" and rng.random() < 0.3:
                 item["short"] = True
             c["tla"].append(item)
+        body_fields = [[n, (rng.choice([False, "force", "force", True]) if rng.random() < 0.3 else h), x] for n, h, x in body_fields]
         root = ["func", fid, params, ["obj", body_fields]]
         if rng.random() < 0.1:
             root = ["obj", body_fields[:len(fields)]]      # TLAs given but the root is not a function
     else:
+        body_fields = [[n, (rng.choice([False, "force", "force", True]) if rng.random() < 0.3 else h), x] for n, h, x in body_fields]
         root = ["obj", body_fields]
     c["root"] = root
     c["flags"] = rng.choice([[], [], ["ntn"], ["m"], ["o"], ["m", "o"], ["m", "ntn"], ["o", "ntn"], ["m"], ["o"], ["y"], ["S"]])
